@@ -107,6 +107,25 @@ theorem every_failure_nonsuccess (i : Input)
 
 theorem silence_is_unavail (rest : List SrvEv) : recvVerdict (.timeout :: rest) = PAM_AUTHINFO_UNAVAIL := by
   simp [recvVerdict, readN]
+/-- A signal that interrupts the wait for the reply makes the module give up (non-success). -/
+theorem interrupt_is_unavail (rest : List SrvEv) : recvVerdict (.intr :: rest) = PAM_AUTHINFO_UNAVAIL := by
+  simp [recvVerdict, readN]
+
+/-- … also after part of the reply has arrived: an interrupt or a close before the announced
+    body is complete never yields success, whatever follows. (The model has no `errno`: in the
+    repaired code a read of 0 bytes is the end of the stream regardless of what the caller's
+    errno happened to be — defect D11 was exactly that dependence.) -/
+theorem incomplete_body_never_succeeds (hi lo : Byte) (part : Bytes) (e : SrvEv) (rest : List SrvEv)
+    (he : e = .intr ∨ e = .eof ∨ e = .timeout) (hl : part.length < min (be16val hi lo) 256) :
+    recvVerdict (.data ([hi, lo] ++ part) :: e :: rest) ≠ PAM_SUCCESS := by
+  have h2 : readN 2 (.data ([hi, lo] ++ part) :: e :: rest) [] = .full [hi, lo] (.data part :: e :: rest) := by
+    simp [readN]
+  simp only [recvVerdict, h2]
+  have hpos : ¬ min (be16val hi lo) 256 = 0 := by omega
+  simp only [hpos, if_false]
+  have hnot : ¬ min (be16val hi lo) 256 ≤ part.length := by omega
+  rcases he with rfl | rfl | rfl <;> simp [readN, hnot, PAM_SUCCESS, PAM_AUTHINFO_UNAVAIL]
+
 theorem early_close_is_unavail (rest : List SrvEv) : recvVerdict (.eof :: rest) = PAM_AUTHINFO_UNAVAIL := by
   simp [recvVerdict, readN]
 
